@@ -21,6 +21,9 @@ var ruleGroups = map[string]func(*Ctx){
 	"J1": rulesSize, "N1": rulesSize, "N2": rulesSize, "N3": rulesSize,
 	"A1": rulesAccess, "A2": rulesAccess, "A3": rulesAccess, "A4": rulesAccess, "T1": rulesAccess, "N4": rulesAccess,
 	"Q1": rulesRepl, "Q2": rulesRepl, "G2": rulesRepl, "L2": rulesRepl,
+	"E3": rulesBus, "E4": rulesBus, "E5": rulesBus, "B1": rulesBus, "B2": rulesBus, "B3": rulesBus, "P2": rulesBus, "P3": rulesBus,
+	"R1": rulesStatus, "R2": rulesStatus,
+	"G1": rulesLife, "G3": rulesLife, "G4": rulesLife, "G5": rulesLife, "G6": rulesLife,
 	"P1": rulesPersist, "E1": rulesPersist, "E2": rulesPersist, "I4": rulesPersist, "L1": rulesPersist,
 }
 
